@@ -275,7 +275,119 @@ fn one_seq<const N: usize>(cx: &mut Ctx, seq: &[usize], nk: usize) {
             }
         }
     }
+    own_sources::<N>(cx, seq, nk);
     cx.sample(|| J::obj().set("items", format!("{:?}", seq.iter().map(|c| (c % nk, c / nk)).collect::<Vec<_>>())).set("capacity", N));
+}
+
+/// The crate's own consuming iterators and drains as the *source* of a bulk operation: the first
+/// `cut` items build the destination singly, the rest goes into a second container (capacity 8)
+/// whose into_iter / into_keys / into_values / drain feeds Set::extend, Set::from_iter or
+/// Map::from_iter - including the case where the destination overflows half way through the source
+/// (the container's own panic unwinding through the source's iteration methods). Oracle: the fold
+/// of single inserts over the source's iteration order; every object destroyed exactly once.
+fn own_sources<const N: usize>(cx: &mut Ctx, seq: &[usize], nk: usize) {
+    const M: usize = 8;
+    for cut in 0..=seq.len() {
+        for kind in 0..7u8 {
+            pl::reset();
+            let name = ["Set::extend(Set::into_iter())", "Set::extend(Map::into_keys())", "Set::extend(Map::into_values())", "Set::extend(Set::drain())",
+                "Set::from_iter(Set::into_iter())", "Map::from_iter(Map::into_iter())", "Map::from_iter(Map::drain())"][kind as usize];
+            cx.here.op = format!("{name} (first {cut} items inserted singly)");
+            let items = mk_items(seq, nk);
+            let ds: Vec<(KD, VD)> = items.iter().map(|(k, v)| (k.desc(), v.desc())).collect();
+            if fold(&ds[..cut], N).overflow_at.is_some() || (kind >= 4 && cut > 0) {
+                continue;
+            }
+            let mut items = items;
+            let rest = items.split_off(cut);
+            let map_src = matches!(kind, 1 | 5 | 6);
+            // the source container: distinct keys of `rest` (first object kept, last value wins)
+            let build_src = |rest: Vec<(Kx, Vx)>| {
+                let mut src_map = Map::<Kx, Vx, M>::new();
+                let mut src_set = Set::<Kx, M>::new();
+                let mut src_vals = Map::<u8, Kx, M>::new();
+                for (i, (k, v)) in rest.into_iter().enumerate() {
+                    if map_src {
+                        src_map.insert(k, v);
+                    } else if kind == 2 {
+                        src_vals.insert(i as u8, k);
+                    } else {
+                        src_set.insert(k);
+                    }
+                }
+                (src_map, src_set, src_vals)
+            };
+            let stored = |src_map: &Map<Kx, Vx, M>, src_set: &Set<Kx, M>, src_vals: &Map<u8, Kx, M>| -> Vec<(KD, VD)> {
+                if map_src {
+                    src_map.iter().map(|(k, v)| (k.desc(), v.desc())).collect()
+                } else if kind == 2 {
+                    src_vals.values().map(|k| (k.desc(), VD { id: pl::NOID, v: 0 })).collect()
+                } else {
+                    src_set.iter().map(|k| (k.desc(), VD { id: pl::NOID, v: 0 })).collect()
+                }
+            };
+            // The order in which the consuming iterator yields is its own business (C10 judges that it
+            // yields the contents): learn it from a first, identically built copy stepped with next(),
+            // as a permutation of the borrowing order, and apply it to the copy that is the real source.
+            let perm: Vec<usize> = {
+                let (mut a_map, mut a_set, a_vals) = build_src(mk_items(seq, nk).split_off(cut));
+                let la = stored(&a_map, &a_set, &a_vals);
+                let ca: Vec<u32> = match kind {
+                    0 | 4 => a_set.into_iter().map(|k| k.id()).collect(),
+                    1 => a_map.into_keys().map(|k| k.id()).collect(),
+                    2 => a_vals.into_values().map(|k| k.id()).collect(),
+                    3 => a_set.drain().map(|k| k.id()).collect(),
+                    5 => a_map.into_iter().map(|(k, _)| k.id()).collect(),
+                    _ => a_map.drain().map(|(k, _)| k.id()).collect(),
+                };
+                ca.iter().filter_map(|id| la.iter().position(|e| e.0.id == *id)).collect()
+            };
+            let (mut src_map, mut src_set, src_vals) = build_src(rest);
+            let lb = stored(&src_map, &src_set, &src_vals);
+            if perm.len() != lb.len() {
+                cx.violate(C10 | C02, format!("{name}: the source container yields {} items by value but stores {}", perm.len(), lb.len()));
+                continue;
+            }
+            let yielded: Vec<(KD, VD)> = perm.iter().map(|i| lb[*i]).collect();
+            let mut all: Vec<(KD, VD)> = ds[..cut].to_vec();
+            all.extend(yielded.iter().copied());
+            let f = fold(&all, N);
+            let f2 = Fold { m: f.m.clone(), overflow_at: f.overflow_at.map(|i| i - cut) };
+            cx.evaluations += 1;
+            if kind < 5 {
+                let mut s = Set::<Kx, N>::new();
+                for (k, _) in items {
+                    s.insert(k);
+                }
+                let res = catch_unwind(AssertUnwindSafe(move || {
+                    match kind {
+                        0 => s.extend(src_set),
+                        1 => s.extend(src_map.into_keys()),
+                        2 => s.extend(src_vals.into_values()),
+                        3 => {
+                            s.extend(src_set.drain());
+                            assert!(src_set.is_empty() && src_set.iter().next().is_none(), "the drained source is not empty");
+                        }
+                        _ => return src_set.into_iter().collect::<Set<Kx, N>>(),
+                    }
+                    s
+                }));
+                judge_set::<N>(cx, name, res, &f2, None, yielded.len());
+            } else {
+                drop(items);
+                let res = catch_unwind(AssertUnwindSafe(move || {
+                    if kind == 5 {
+                        src_map.into_iter().collect::<Map<Kx, Vx, N>>()
+                    } else {
+                        let m = src_map.drain().collect::<Map<Kx, Vx, N>>();
+                        assert!(src_map.is_empty(), "the drained source is not empty");
+                        m
+                    }
+                }));
+                judge_map::<N>(cx, name, res, &f2, None, yielded.len());
+            }
+        }
+    }
 }
 
 fn run_n<const N: usize>(rep: &mut EngineReport, nk: usize, nv: usize, maxlen: usize, threads: usize, replay: Option<Vec<u32>>) -> i32 {
